@@ -950,6 +950,24 @@ class BeartypeConf(object):
             # Sanify all passed parameters *AFTER* validating these parameters.
             sanify_conf_kwargs(conf_kwargs)
 
+            # Tuple of all defaulted and sanified parameters (i.e., the values of
+            # the "kwargs" property of the configuration instantiated below,
+            # whose order is that of the "conf_args" tuple).
+            conf_args_sane = tuple(conf_kwargs.values())
+
+            # If this method has already instantiated a configuration whose
+            # defaulted and sanified parameters are these parameters (e.g., as
+            # the caller only implicitly defaulted a parameter explicitly passed
+            # to that prior call), these two configurations configure identical
+            # behaviour. Return that configuration, additionally cached under the
+            # parameters passed to this call.
+            conf_cached = _beartype_conf_args_to_conf.get(conf_args_sane)
+
+            if conf_cached is not None:
+                _beartype_conf_args_to_conf[conf_args] = conf_cached
+                return conf_cached
+            # Else, this method has yet to instantiate such a configuration.
+
             # ..................{ INSTANTIATE                }..................
             # Instantiate a new configuration of this type.
             self = super().__new__(cls)
@@ -989,14 +1007,9 @@ class BeartypeConf(object):
             _beartype_conf_args_to_conf[conf_args] = self
 
             # Additionally cache this configuration under the equivalent tuple of
-            # all defaulted and sanified parameters (i.e., the values of the
-            # "kwargs" property of this configuration, whose order is that of
-            # the "conf_args" tuple), guaranteeing that
-            # "BeartypeConf(**conf.kwargs) is conf". Note that setdefault()
-            # rather than assignment preserves any equal configuration
-            # previously cached under this tuple.
-            _beartype_conf_args_to_conf.setdefault(
-                tuple(conf_kwargs.values()), self)
+            # all defaulted and sanified parameters, guaranteeing that
+            # "BeartypeConf(**conf.kwargs) is conf".
+            _beartype_conf_args_to_conf[conf_args_sane] = self
 
             # ..................{ CLASSIFY                   }..................
             # Classify all passed parameters that have now been possibly
